@@ -447,4 +447,168 @@ theorem zero_p_iff' : ∀ (u : List Nat), zero_p u = true ↔ val u = 0
       have h1 : x = 0 := by omega
       have h2 : B * val xs = 0 := by omega
       exact ⟨h1, (Nat.mul_eq_zero.mp h2).resolve_left (by omega)⟩
+/-! ### mul_1 / addmul_1 / submul_1 -/
+
+theorem boolToNat_decide (p : Prop) [Decidable p] : boolToNat (decide p) = if p then 1 else 0 := by
+  by_cases h : p <;> simp [boolToNat, h]
+
+theorem limb_mul_le (u v : Nat) (hu : u < B) (hv : v < B) :
+    u * v ≤ 340282366920938463426481119284349108225 := by
+  have : u * v ≤ (B - 1) * (B - 1) := Nat.mul_le_mul (by omega) (by omega)
+  simpa [B_eq] using this
+
+/-- one limb of mul_1: `lpl += cl; cl = (lpl < cl) + hpl` is the exact two-limb sum u·v + cl -/
+theorem mul1_limb (u v cl p lpl cl' : Nat) (hu : u < B) (hv : v < B) (hcl : cl < B)
+    (hp : p = u * v)
+    (hlpl : lpl = (p % B + cl) % B)
+    (hcl' : cl' = (boolToNat (decide (lpl < cl)) + p / B) % B) :
+    lpl + B * cl' = p + cl ∧ cl' < B ∧ lpl < B := by
+  have hb := limb_mul_le u v hu hv
+  rw [← hp] at hb
+  rw [boolToNat_decide] at hcl'
+  simp only [B_eq] at *
+  split at hcl' <;> omega
+
+theorem mul1C_val (v : Nat) (hv : v < B) : ∀ (u : List Nat) (cl : Nat), Limbs u → cl < B →
+    val (mul1C u v cl).1 + B ^ u.length * (mul1C u v cl).2 = val u * v + cl ∧
+    (mul1C u v cl).2 < B ∧ Limbs (mul1C u v cl).1 ∧ (mul1C u v cl).1.length = u.length
+  | [], cl, _, hcl => by simp [mul1C, hcl, Limbs_nil]
+  | u :: us, cl, h, hcl => by
+    have ⟨hu, hus⟩ := Limbs_cons.mp h
+    obtain ⟨lpl, hlpl⟩ : ∃ lpl, lpl = ((u * v) % B + cl) % B := ⟨_, rfl⟩
+    obtain ⟨cl', hcl'⟩ : ∃ c, c = (boolToNat (decide (lpl < cl)) + (u * v) / B) % B := ⟨_, rfl⟩
+    have step : mul1C (u :: us) v cl = (lpl :: (mul1C us v cl').1, (mul1C us v cl').2) := by
+      rw [hcl', hlpl]; simp only [mul1C, umul_ppmm]; rfl
+    obtain ⟨e, c1, r1⟩ := mul1_limb u v cl _ lpl cl' hu hv hcl rfl hlpl hcl'
+    obtain ⟨ihv, ihc, ihl, ihn⟩ := mul1C_val v hv us cl' hus c1
+    rw [step]
+    simp only [val_cons, List.length_cons, pow_succ]
+    refine ⟨?_, ihc, Limbs_cons.mpr ⟨r1, ihl⟩, by rw [ihn]⟩
+    linear_combination e + B * ihv
+
+/-- one limb of addmul_1 -/
+theorem addmul1_limb (r u v cl p lpl1 cl1 lpl cl2 : Nat) (hr : r < B) (hu : u < B) (hv : v < B)
+    (hcl : cl < B) (hp : p = u * v)
+    (h1 : lpl1 = (p % B + cl) % B)
+    (h2 : cl1 = (boolToNat (decide (lpl1 < cl)) + p / B) % B)
+    (h3 : lpl = (r + lpl1) % B)
+    (h4 : cl2 = (cl1 + boolToNat (decide (lpl < r))) % B) :
+    lpl + B * cl2 = r + p + cl ∧ cl2 < B ∧ lpl < B := by
+  have hb := limb_mul_le u v hu hv
+  rw [← hp] at hb
+  rw [boolToNat_decide] at h2 h4
+  simp only [B_eq] at *
+  split at h2 <;> split at h4 <;> omega
+
+theorem addmul1C_val (v : Nat) (hv : v < B) : ∀ (r u : List Nat) (cl : Nat), Limbs r → Limbs u →
+    r.length = u.length → cl < B →
+    val (addmul1C r u v cl).1 + B ^ u.length * (addmul1C r u v cl).2 = val r + val u * v + cl ∧
+    (addmul1C r u v cl).2 < B ∧ Limbs (addmul1C r u v cl).1 ∧ (addmul1C r u v cl).1.length = u.length
+  | [], [], cl, _, _, _, hcl => by simp [addmul1C, hcl, Limbs_nil]
+  | [], _ :: _, _, _, _, h, _ => by simp at h
+  | _ :: _, [], _, _, _, h, _ => by simp at h
+  | r :: rs, u :: us, cl, hr, hu, hl, hcl => by
+    have ⟨hr0, hrs⟩ := Limbs_cons.mp hr
+    have ⟨hu0, hus⟩ := Limbs_cons.mp hu
+    obtain ⟨lpl1, h1⟩ : ∃ x, x = ((u * v) % B + cl) % B := ⟨_, rfl⟩
+    obtain ⟨cl1, h2⟩ : ∃ x, x = (boolToNat (decide (lpl1 < cl)) + (u * v) / B) % B := ⟨_, rfl⟩
+    obtain ⟨lpl, h3⟩ : ∃ x, x = (r + lpl1) % B := ⟨_, rfl⟩
+    obtain ⟨cl2, h4⟩ : ∃ x, x = (cl1 + boolToNat (decide (lpl < r))) % B := ⟨_, rfl⟩
+    have step : addmul1C (r :: rs) (u :: us) v cl =
+        (lpl :: (addmul1C rs us v cl2).1, (addmul1C rs us v cl2).2) := by
+      rw [h4, h3, h2, h1]; simp only [addmul1C, umul_ppmm]; rfl
+    obtain ⟨e, c1, r1⟩ := addmul1_limb r u v cl _ lpl1 cl1 lpl cl2 hr0 hu0 hv hcl rfl h1 h2 h3 h4
+    obtain ⟨ihv, ihc, ihl, ihn⟩ := addmul1C_val v hv rs us cl2 hrs hus (by simpa using hl) c1
+    rw [step]
+    simp only [val_cons, List.length_cons, pow_succ]
+    refine ⟨?_, ihc, Limbs_cons.mpr ⟨r1, ihl⟩, by rw [ihn]⟩
+    linear_combination e + B * ihv
+
+/-- one limb of submul_1 -/
+theorem submul1_limb (r u v cl p lpl1 cl1 lpl cl2 : Nat) (hr : r < B) (hu : u < B) (hv : v < B)
+    (hcl : cl < B) (hp : p = u * v)
+    (h1 : lpl1 = (p % B + cl) % B)
+    (h2 : cl1 = (boolToNat (decide (lpl1 < cl)) + p / B) % B)
+    (h3 : lpl = (r + B - lpl1) % B)
+    (h4 : cl2 = (cl1 + boolToNat (decide (lpl > r))) % B) :
+    lpl + p + cl = r + B * cl2 ∧ cl2 < B ∧ lpl < B := by
+  have hb := limb_mul_le u v hu hv
+  rw [← hp] at hb
+  rw [boolToNat_decide] at h2 h4
+  simp only [B_eq] at *
+  split at h2 <;> split at h4 <;> omega
+
+theorem submul1C_val (v : Nat) (hv : v < B) : ∀ (r u : List Nat) (cl : Nat), Limbs r → Limbs u →
+    r.length = u.length → cl < B →
+    val (submul1C r u v cl).1 + val u * v + cl = val r + B ^ u.length * (submul1C r u v cl).2 ∧
+    (submul1C r u v cl).2 < B ∧ Limbs (submul1C r u v cl).1 ∧ (submul1C r u v cl).1.length = u.length
+  | [], [], cl, _, _, _, hcl => by simp [submul1C, hcl, Limbs_nil]
+  | [], _ :: _, _, _, _, h, _ => by simp at h
+  | _ :: _, [], _, _, _, h, _ => by simp at h
+  | r :: rs, u :: us, cl, hr, hu, hl, hcl => by
+    have ⟨hr0, hrs⟩ := Limbs_cons.mp hr
+    have ⟨hu0, hus⟩ := Limbs_cons.mp hu
+    obtain ⟨lpl1, h1⟩ : ∃ x, x = ((u * v) % B + cl) % B := ⟨_, rfl⟩
+    obtain ⟨cl1, h2⟩ : ∃ x, x = (boolToNat (decide (lpl1 < cl)) + (u * v) / B) % B := ⟨_, rfl⟩
+    obtain ⟨lpl, h3⟩ : ∃ x, x = (r + B - lpl1) % B := ⟨_, rfl⟩
+    obtain ⟨cl2, h4⟩ : ∃ x, x = (cl1 + boolToNat (decide (lpl > r))) % B := ⟨_, rfl⟩
+    have step : submul1C (r :: rs) (u :: us) v cl =
+        (lpl :: (submul1C rs us v cl2).1, (submul1C rs us v cl2).2) := by
+      rw [h4, h3, h2, h1]; simp only [submul1C, umul_ppmm]; rfl
+    obtain ⟨e, c1, r1⟩ := submul1_limb r u v cl _ lpl1 cl1 lpl cl2 hr0 hu0 hv hcl rfl h1 h2 h3 h4
+    obtain ⟨ihv, ihc, ihl, ihn⟩ := submul1C_val v hv rs us cl2 hrs hus (by simpa using hl) c1
+    rw [step]
+    simp only [val_cons, List.length_cons, pow_succ]
+    refine ⟨?_, ihc, Limbs_cons.mpr ⟨r1, ihl⟩, by rw [ihn]⟩
+    linear_combination e + B * ihv
+
+/-! ### mul_basecase -/
+
+theorem mulBasecaseRows_val (u : List Nat) (hu : Limbs u) : ∀ (vs acc : List Nat) (off : Nat),
+    Limbs vs → Limbs acc → acc.length = u.length + off →
+    val (mulBasecaseRows u vs acc off) = val acc + B ^ off * val u * val vs ∧
+    Limbs (mulBasecaseRows u vs acc off) ∧
+    (mulBasecaseRows u vs acc off).length = u.length + off + vs.length
+  | [], acc, off, _, hacc, hlen => by simp [mulBasecaseRows, hacc, hlen]
+  | v :: vs, acc, off, hvs, hacc, hlen => by
+    have ⟨hv, hvs'⟩ := Limbs_cons.mp hvs
+    have hmid : (acc.drop off).length = u.length := by simp [hlen]
+    have hlo : (acc.take off).length = off := by simp [hlen]
+    obtain ⟨av, ac, al, an⟩ := addmul1C_val v hv (acc.drop off) u 0 (Limbs_drop hacc _) hu hmid
+      B_pos
+    have hsplit := val_take_drop acc off (by omega)
+    have step : mulBasecaseRows u (v :: vs) acc off =
+        mulBasecaseRows u vs (acc.take off ++ (addmul1C (acc.drop off) u v 0).1 ++
+          [(addmul1C (acc.drop off) u v 0).2]) (off + 1) := by
+      simp only [mulBasecaseRows, addmul_1]
+    have hacc' : Limbs (acc.take off ++ (addmul1C (acc.drop off) u v 0).1 ++
+          [(addmul1C (acc.drop off) u v 0).2]) :=
+      Limbs_append.mpr ⟨Limbs_append.mpr ⟨Limbs_take hacc _, al⟩, Limbs_cons.mpr ⟨ac, Limbs_nil⟩⟩
+    obtain ⟨ihv, ihl, ihn⟩ := mulBasecaseRows_val u hu vs _ (off + 1) hvs' hacc'
+      (by simp only [List.length_append, hlo, an, List.length_cons, List.length_nil]; omega)
+    rw [step]
+    refine ⟨?_, ihl, by rw [ihn]; simp only [List.length_cons]; omega⟩
+    rw [ihv]
+    simp only [val_append, val_cons, val_nil, List.length_append, hlo, an, pow_succ, pow_add]
+    linear_combination B ^ off * av - hsplit
+
+theorem mul_basecase_val' (u : List Nat) (v0 : Nat) (vs : List Nat) (hu : Limbs u)
+    (hv : Limbs (v0 :: vs)) :
+    val (mul_basecase u (v0 :: vs)) = val u * val (v0 :: vs) ∧
+    Limbs (mul_basecase u (v0 :: vs)) ∧
+    (mul_basecase u (v0 :: vs)).length = u.length + (vs.length + 1) := by
+  have ⟨hv0, hvs⟩ := Limbs_cons.mp hv
+  obtain ⟨mv, mc, ml, mn⟩ := mul1C_val v0 hv0 u 0 hu B_pos
+  have step : mul_basecase u (v0 :: vs) =
+      mulBasecaseRows u vs ((mul1C u v0 0).1 ++ [(mul1C u v0 0).2]) 1 := by
+    simp only [mul_basecase, mul_1]
+  have hacc : Limbs ((mul1C u v0 0).1 ++ [(mul1C u v0 0).2]) :=
+    Limbs_append.mpr ⟨ml, Limbs_cons.mpr ⟨mc, Limbs_nil⟩⟩
+  obtain ⟨rv, rl, rn⟩ := mulBasecaseRows_val u hu vs _ 1 hvs hacc
+    (by simp only [List.length_append, mn, List.length_cons, List.length_nil])
+  rw [step]
+  refine ⟨?_, rl, by rw [rn]; omega⟩
+  rw [rv]
+  simp only [val_append, val_cons, val_nil, mn, pow_one]
+  linear_combination mv
 end Mpir
